@@ -7,7 +7,9 @@
     the model's bytes = the harness's own canonical bytes; member order of the
     supplied dictionaries is irrelevant; every single-leaf edit and signature edit
     makes verification fail; any other key fails;
-(c) sequences of in-toto-sign operations (sign = replace, append, verify) through `main`."""
+(c) sequences of in-toto-sign operations (sign = replace, append, verify) through `main`;
+(d) histories of verify / sign / append / edit / reload on one in-memory object in both formats (the model is
+    stateless, so any dependence of a check on earlier checks shows as a disagreement)."""
 import base64
 import copy
 import json
@@ -21,7 +23,8 @@ from harness import cli, core, scen, world as W
 RULE = ("random JSON values (unicode, quotes, backslashes, control characters, big integers, nesting, shuffled member "
         "order, floats) for canon; random links and layouts (unicode / quote / backslash / control characters, nested and "
         "empty byproducts, large integers, up to 40 artifacts) x rsa / ecdsa / ed25519 / gpg master / gpg subkey x both "
-        "formats x compact / indented, with leaf and signature edits; in-toto-sign sequences of length 1-4. Non-trivial: "
+        "formats x compact / indented, with leaf and signature edits; in-toto-sign sequences of length 1-4; histories of 4-10 "
+        "verify / impostor-key / sign / append / edit / reload operations on one in-memory object per format. Non-trivial: "
         "value nests at least one object or list / payload has at least one artifact; distinct by content.")
 ASSUMPTIONS = ["genuineness of a signature produced by in-toto is established with securesystemslib's key classes over the "
                "harness's own canonical bytes before it enters the ground-truth table",
@@ -367,9 +370,117 @@ def sign_sequence(rng, res, d):
                  {"op": "sign_ops", "file_ids": file_ids, "model_ids": present})
 
 
+# ------------------------------------------------------------------ (d) histories on one in-memory object
+
+
+def history_case(case_seed, res, prop="C09"):
+    """One payload held as a traditional and as a DSSE object *in memory*; a random history of verify (genuine key,
+    other key, a key dictionary carrying another key's id) / sign (= replace) / append / edit / store-and-reload is
+    applied to both.  Every verify is compared with the (stateless) model on the object's current dictionary form, with
+    the ground truth kept by the harness (which keys signed the current content), and between the two formats."""
+    import attr
+    from in_toto.models.layout import Layout
+    from in_toto.models.link import Link
+    from in_toto.models.metadata import Metablock, Envelope, Metadata
+    rng = random.Random(case_seed)
+    pool = W.pool()
+    keys = rng.sample(pool, 3)
+    is_layout = rng.random() < 0.5
+    mk = (lambda kw: Layout(**kw)) if is_layout else (lambda kw: Link(**kw))
+    kw = rand_layout_kwargs(rng) if is_layout else rand_link_payload(rng)
+    objs = {"metablock": mk(copy.deepcopy(kw)), "dsse": mk(copy.deepcopy(kw))}
+    mds = {"metablock": Metablock(signed=objs["metablock"]), "dsse": Envelope.from_signable(objs["dsse"])}
+    version = 0
+    present = []                      # ground truth: (keyid, material, content version signed)
+    ops = []
+    d = tempfile.mkdtemp(prefix="verif-c09h-")
+    try:
+        for _step in range(rng.randrange(4, 11)):
+            kind = rng.choice(["verify"] * 5 + ["impostor"] * 2 + ["sign", "sign", "append", "edit", "reload"])
+            k = rng.choice(keys)
+            if kind == "append" and any(p[0] == k.keyid for p in present):
+                kind = "sign"         # key ids within one file stay distinct (DESIGN 4.3)
+            op = {"op": kind, "key": k.keyid[:8]}
+            if kind in ("sign", "append"):
+                for fmt, md in mds.items():
+                    if kind == "sign":
+                        md.signatures = []
+                    md.create_signature(k.signer)
+                present = (present if kind == "append" else []) + [(k.keyid, W.key_material(k.pub), version)]
+            elif kind == "edit":
+                version += 1
+                for fmt in mds:
+                    o = objs[fmt]
+                    if is_layout:
+                        o.readme = (o.readme or "") + "!"
+                    else:
+                        o.command = list(o.command) + ["edited"]
+                mds["dsse"].payload = Envelope.from_signable(objs["dsse"]).payload
+                op.pop("key")
+            elif kind == "reload":
+                for fmt in list(mds):
+                    path = os.path.join(d, "h-%s" % fmt)
+                    mds[fmt].dump(path)
+                    mds[fmt] = Metadata.load(path)
+                    if fmt == "metablock":
+                        objs[fmt] = mds[fmt].signed
+                    else:
+                        objs[fmt] = mds[fmt].get_payload()
+                op.pop("key")
+            else:
+                pub = json.loads(json.dumps(k.pub))
+                if kind == "impostor":
+                    other = rng.choice([x for x in keys if x is not k])
+                    pub["keyid"] = other.keyid          # k's material under other's id
+                    op["claims_id_of"] = other.keyid[:8]
+                truth = any(p == (pub["keyid"], W.key_material(pub), version) for p in present)
+                outs = {}
+                for fmt, md in mds.items():
+                    try:
+                        md.verify_signature(json.loads(json.dumps(pub)))
+                        i = "ok"
+                    except Exception as e:  # pylint: disable=broad-except
+                        i = W.exc_class(e)
+                    content = json.loads(json.dumps(md.to_dict()))
+                    table, _msg = table_from_file(content, keys)
+                    m = model_check(content, pub, table)
+                    agreed = m.get("load") == "ok" and (i == m["check"] or (
+                        m["check"] == "Exception" and i not in ("ok", "SignatureVerificationError")))
+                    outs[fmt] = i
+                    res.case({"history": ops + [op], "fmt": fmt, "impl": i, "model": m.get("check")}, len(ops) >= 2, agreed,
+                             sample_cap=1)
+                    res.count("history_verify_" + ("ok" if i == "ok" else "fail"))
+                    full = {"op": "history", "case_seed": case_seed, "ops": ops + [op], "fmt": fmt}
+                    if not agreed:
+                        res.fail("disagree", full, {"op": "load_verify_sig", "impl": i, "model": m})
+                    if prop == "C09" and (i == "ok") != truth:
+                        res.fail("oracle", full, {
+                            "why": "signature check %s although the key dictionary (id %s) %s the current content" % (
+                                "passed" if i == "ok" else "failed (%s)" % i, pub["keyid"][:8],
+                                "signed" if truth else "did not sign"), "impl": i})
+                if prop == "C14" and outs["metablock"] != outs["dsse"]:
+                    res.fail("oracle", {"op": "history", "case_seed": case_seed, "ops": ops + [op], "fmt": "both"},
+                             {"why": "the same history gives different signature-check results on traditional and DSSE metadata",
+                              "outcomes": outs})
+                op["result"] = outs
+            ops.append(op)
+    finally:
+        shutil.rmtree(d, ignore_errors=True)
+
+
+def shard_history(seed, idx, n, prop):
+    res = core.Result()
+    rng = core.rng_for(seed, "c09", "history", idx)
+    for _ in range(n):
+        history_case(rng.randrange(1 << 40), res, prop)
+    return res
+
+
 def run(tier, seed):
     nc, nr = (150, 12) if tier == "quick" else (2500, 250)
-    shards = [(shard_canon, (seed, i, nc)) for i in range(16)] + [(shard_roundtrip, (seed, i, nr, tier)) for i in range(16)]
+    nh = 6 if tier == "quick" else 100
+    shards = [(shard_canon, (seed, i, nc)) for i in range(16)] + [(shard_roundtrip, (seed, i, nr, tier)) for i in range(16)] + \
+        [(shard_history, (seed, i, nh, "C09")) for i in range(16)]
     return core.parallel(core.call, shards)
 
 
@@ -391,11 +502,16 @@ def replay(case):
             shutil.rmtree(d, ignore_errors=True)
         t = W.SigTable(); t.rows = case["table"]
         return {"desc": case.get("desc"), "impl": i, "model": model_check(case["content"], case["key"], t)}
+    if case.get("op") == "history":
+        res = core.Result()
+        history_case(case["case_seed"], res, "C14" if case.get("fmt") == "both" else "C09")
+        return {"ops": case["ops"], "failures_on_replay": res.failures}
     return {"note": "sequence cases are regenerated from the seed"}
 
 
 def search(failure, tier, seed):
-    res = core.parallel(core.call, [(shard_roundtrip, (seed + 1000 + i, i, 30, tier)) for i in range(16)])
+    res = core.parallel(core.call, [(shard_roundtrip, (seed + 1000 + i, i, 30, tier)) for i in range(16)] +
+                        [(shard_history, (seed + 1000 + i, i, 20, "C09")) for i in range(16)])
     for f in res.failures:
         if f["kind"] == "oracle":
             return f
